@@ -114,7 +114,7 @@ theorem rxso3Exp_tangent_zero (eps : ℝ) (heps : 0 < eps) (x : ℝ → DVec ℝ
 
 /-- **`RxSO3_Log.backward` at the identity rotation** (any scale, either quaternion representative): exact -/
 theorem RxSO3Log_tangent_identity (eps : ℝ) (heps : 0 < eps) (X : ℝ → DVec ℝ) (a0 a1 a2 a3 : ℝ)
-    (hX : LCurve 5 X (liftG .RxSO3 (X 0) [a0, a1, a2, a3])) (hs : nth (X 0) 4 ≠ 0)
+    (hX : LCurve 5 X (liftG .RxSO3 (X 0) [a0, a1, a2, a3])) (hs : 0 < nth (X 0) 4)
     (hv : (qt (X 0)).vec = ⟨0, 0, 0⟩) (hw : nth (X 0) 3 * nth (X 0) 3 = 1) :
     LCurve 4 (fun t => logF .RxSO3 eps (X t))
       ((JlInvMat .RxSO3 eps (logF .RxSO3 eps (X 0))).mulVec [a0, a1, a2, a3]) := by
